@@ -75,6 +75,7 @@ def run_tlc(
             "-XX:+UseParallelGC",
             f"-Xmx{heap}",
             "-Xss512m",
+            f"-Djava.io.tmpdir={scratch}",  # TLC leaves a tlc-<n> directory per run in the JVM's tmpdir
             "-cp",
             JAR,
             "tlc2.TLC",
